@@ -261,6 +261,148 @@ theorem scan_sound (toks : List Token) (valid : Nat → Bool) (I : List Nat) :
             · rw [hget j hj1]; simp [nullable_not_isEmpty hn]
             · rw [hget j hj1]; exact hn
 
+/-! ### with equal precedences the scan is complete: it reaches every candidate length -/
+
+/-- all valid tokens have lexical precedence `p` -/
+def FlatPrec (toks : List Token) (valid : Nat → Bool) (p : Int) : Prop :=
+  ∀ i, i < toks.length → valid i = true → (tokAt toks i).prec = p
+
+theorem maxPrec_none {toks : List Token} : ∀ {is : List Nat}, maxPrec toks is = none → is = [] := by
+  intro is
+  cases is with
+  | nil => intro _; rfl
+  | cons i is =>
+    intro h
+    simp only [maxPrec] at h
+    split at h <;> cases h
+
+theorem maxPrec_flat {toks : List Token} {p : Int} : ∀ {is : List Nat} {m : Int},
+    (∀ i ∈ is, (tokAt toks i).prec = p) → maxPrec toks is = some m → m = p := by
+  intro is
+  induction is with
+  | nil => intro m _ h; simp [maxPrec] at h
+  | cons i is ih =>
+    intro m hall h
+    simp only [maxPrec] at h
+    have hi := hall i List.mem_cons_self
+    cases hm : maxPrec toks is with
+    | none => simp only [hm, Option.some.injEq] at h; rw [← h, hi]
+    | some m' =>
+      simp only [hm, Option.some.injEq] at h
+      have := ih (fun j hj => hall j (List.mem_cons_of_mem _ hj)) hm
+      rw [← h, this, hi]; simp
+
+theorem derivs_not_empty_of_matches {r : Regex} {u w : List Nat} (h : Matches r (u ++ w)) :
+    (derivs r u).isEmpty = false := by
+  have := (derivs_iff r u w).2 h
+  cases hd : derivs r u <;> simp_all [Regex.isEmpty]
+  exact absurd this matches_empty_false
+
+theorem scan_flat (toks : List Token) (valid : Nat → Bool) (I : List Nat) (p : Int)
+    (hflat : FlatPrec toks valid p) :
+    ∀ (input : List Nat) (rs : List Regex) (k : Nat) (cur : Option Int) (last : Option Cand),
+      input = I.drop k → k ≤ I.length → rs = toks.map (fun t => derivs t.re (I.take k)) →
+      (cur = none ∨ cur = some p) →
+      (∀ c', IsCand toks valid I c' → c'.2 ≤ k → ∃ c, last = some c ∧ c'.2 ≤ c.2) →
+      ∀ c', IsCand toks valid I c' → ∃ c, scan toks valid input rs k cur last = some c ∧ c'.2 ≤ c.2 := by
+  intro input
+  induction input with
+  | nil =>
+    intro rs k cur last hin hk _ _ hinv c' hc'
+    have hlen : I.length ≤ k := by
+      by_cases h : k < I.length
+      · have := List.drop_eq_getElem_cons h; rw [← hin] at this; cases this
+      · omega
+    simp only [scan]
+    exact hinv c' hc' (by have := hc'.2.2.2.1; omega)
+  | cons ch rest ih =>
+    intro rs k cur last hin hkle hrs hcur hinv c' hc'
+    have hk : k < I.length := by
+      by_cases h : k < I.length
+      · exact h
+      · have : I.drop k = [] := List.drop_eq_nil_of_le (by omega)
+        rw [this] at hin; cases hin
+    have hcons : ch :: rest = I[k]'hk :: I.drop (k + 1) := by rw [hin]; exact List.drop_eq_getElem_cons hk
+    have h1 : I[k]'hk = ch := by injection hcons with h _; exact h.symm
+    have hdrop : rest = I.drop (k + 1) := by injection hcons
+    have htake : I.take (k + 1) = I.take k ++ [ch] := by
+      rw [List.take_succ_eq_append_getElem hk, h1]
+    have hrs' : rs.map (deriv ch) = toks.map (fun t => derivs t.re (I.take (k + 1))) := by
+      rw [hrs, List.map_map]
+      apply List.map_congr_left
+      intro t _
+      simp [htake, derivs_snoc]
+    have hget : ∀ i, i < toks.length → (rs.map (deriv ch)).getD i .empty = derivs (tokAt toks i).re (I.take (k + 1)) := by
+      intro i hi
+      rw [hrs']
+      simp [List.getD, tokAt, hi]
+    -- a candidate longer than k keeps its token alive after k+1 characters
+    have halive : ∀ d, IsCand toks valid I d → k < d.2 → d.1 ∈ aliveIdx toks valid (rs.map (deriv ch)) := by
+      intro d hd hlt
+      obtain ⟨hd1, hd2, _, hd4, hd5⟩ := hd
+      simp only [aliveIdx, List.mem_filter, List.mem_range, Bool.and_eq_true]
+      refine ⟨hd1, hd2, ?_⟩
+      rw [hget _ hd1]
+      have e : I.take d.2 = I.take (k + 1) ++ (I.take d.2).drop (k + 1) := by
+        have : (I.take d.2).take (k + 1) = I.take (k + 1) := by
+          rw [List.take_take]; congr 1; omega
+        rw [← this, List.take_append_drop]
+      rw [e] at hd5
+      simp [derivs_not_empty_of_matches hd5]
+    have hallp : ∀ i ∈ aliveIdx toks valid (rs.map (deriv ch)), (tokAt toks i).prec = p := by
+      intro i hi
+      simp only [aliveIdx, List.mem_filter, List.mem_range, Bool.and_eq_true] at hi
+      exact hflat i hi.1 hi.2.1
+    simp only [scan]
+    cases hm : maxPrec toks (aliveIdx toks valid (rs.map (deriv ch))) with
+    | none =>
+      simp only
+      have hnil := maxPrec_none hm
+      by_cases hle : c'.2 ≤ k
+      · exact hinv c' hc' hle
+      · have := halive c' hc' (by omega)
+        rw [hnil] at this; cases this
+    | some m =>
+      simp only
+      have hmp : m = p := maxPrec_flat hallp hm
+      have hcut : cut cur m = false := by
+        rcases hcur with rfl | rfl
+        · rfl
+        · simp [cut, hmp]
+      rw [hcut]
+      simp only [Bool.false_eq_true, if_false]
+      cases hb : bestOf toks (List.map (fun i => (i, k + 1))
+          (List.filter (fun i => ((List.map (deriv ch) rs).getD i Regex.empty).nullable)
+            (aliveIdx toks valid (List.map (deriv ch) rs)))) with
+      | none =>
+        simp only
+        have hnil := (bestOf_spec toks _).1.1 hb
+        refine ih _ _ _ _ hdrop (by omega) hrs' (Or.inl rfl) ?_ c' hc'
+        intro d hd hdle
+        by_cases hle : d.2 ≤ k
+        · exact hinv d hd hle
+        · -- a candidate of length k+1 would be a completion
+          exfalso
+          have hd2 : d.2 = k + 1 := by omega
+          have hal := halive d hd (by omega)
+          obtain ⟨hd1, _, _, _, hd5⟩ := hd
+          have hn : nullable (derivs (tokAt toks d.1).re (I.take (k + 1))) = true := by
+            rw [nullable_iff, derivs_iff]; simpa [hd2] using hd5
+          have : (d.1, k + 1) ∈ List.map (fun i => (i, k + 1))
+              (List.filter (fun i => ((List.map (deriv ch) rs).getD i Regex.empty).nullable)
+                (aliveIdx toks valid (List.map (deriv ch) rs))) := by
+            simp only [List.mem_map, List.mem_filter, Prod.mk.injEq, and_true]
+            exact ⟨d.1, ⟨hal, by rw [hget _ hd1]; exact hn⟩, rfl⟩
+          rw [hnil] at this; cases this
+      | some b =>
+        simp only
+        obtain ⟨hmem, _⟩ := (bestOf_spec toks _).2 b hb
+        simp only [List.mem_map, List.mem_filter] at hmem
+        obtain ⟨i, ⟨hial, _⟩, rfl⟩ := hmem
+        refine ih _ _ _ _ hdrop (by omega) hrs' (Or.inr (by rw [hallp i hial])) ?_ c' hc'
+        intro d _ hdle
+        exact ⟨(i, k + 1), rfl, hdle⟩
+
 theorem lexScan_ok (toks : List Token) (valid : Nat → Bool) (I : List Nat) (c : Cand)
     (h : lexScan toks valid I = some c) : ScanOK toks valid I c := by
   unfold lexScan at h
